@@ -3,6 +3,7 @@
 set -e
 eng=$1; shift
 export GOFLAGS=-mod=mod GOPROXY=off
+[ -d /tmp/wt-int ] || git -C /repo worktree add -q --detach /tmp/wt-int main   # scratch worktree (remove afterwards: git -C /repo worktree remove --force /tmp/wt-int)
 cd /tmp/wt-int && git checkout -q --detach && git reset -q --hard main
 for pp in "$@"; do n=${pp%%=*}; git apply --3way /verif/proposed_fixes/$n.diff; git add -A; git commit -q -F /verif/proposed_fixes/$n.msg; echo "applied $n"; done
 go build . ./layers ./pcapgo ./reassembly ./tcpassembly
